@@ -199,7 +199,7 @@ def random_history(rnd: random.Random, prop: str, length: int) -> tuple[dict, li
             nn = 0 if it in (2, 9, 14) else (255 if it == 3 and rnd.random() < 0.7 else n)
             cc = rnd.choice([255, 255, 5]) if it == 3 else 255
             ev = dict(k="recv", n=nn, c=cc, cmd=3, ack=0, t=it, p=pl)
-            if prop == "C08" and it in (22, 32) and rnd.random() < 0.6:
+            if prop in ("C08", "C12") and it in (22, 32) and rnd.random() < (0.6 if prop == "C08" else 0.3):
                 ev["fault"] = f"rel:{rnd.randint(1, 4)}"
         elif r < w[5]:
             ev = dict(k="recv", n=n, c=255, cmd=4, ack=0, t=rnd.choice([0, 1, 5, 6]), p="")
@@ -241,7 +241,7 @@ PROPS = {
     "C08": dict(focus={"sets", "faultReported"}, mc=[("sleepbuf", 3, 4)], rand=(300, 2000, 60), faults=True),
     "C10": dict(focus={"pres"}, mc=[("presreq", 3, 4)], rand=(300, 1500, 40)),
     "C11": dict(focus={"ids"}, mc=[("ids", 4, 5)], rand=(300, 1500, 12)),
-    "C12": dict(focus={"sendres"}, mc=[("send", 2, 3)], rand=(300, 1500, 40)),
+    "C12": dict(focus={"sendres"}, mc=[("send", 3, 4)], rand=(300, 1500, 40)),
 }
 
 TZS = ["UTC0", "IST-5:30", "NST3:30", "LINT-14"]
